@@ -143,6 +143,7 @@ func main() {
 	run("Resolve", func() { genResolve(repo, outdir) })
 	run("Facts", func() { genFacts(repo, outdir) })
 	run("Action", func() { genAction(repo, outdir) })
+	run("Driver", func() { genDriver(repo, outdir) })
 	if failed {
 		os.Exit(1)
 	}
